@@ -670,6 +670,20 @@ pub fn c07_views(ctx: &mut Ctx, t: &Term) {
     Ok(Some(d)) => fail(ctx, "rope_view_vs_source", d),
     Err(e) => report_panic(ctx, t, "rope() readers", &e),
   }
+  // the rope asked FIRST on a fresh object (before any other observer decoded a binary leaf)
+  match observe::guarded(|| {
+    let fresh = t.build();
+    let r = fresh.rope().to_string();
+    let again = fresh.source().into_owned();
+    (r, again)
+  }) {
+    Ok((r, again)) => {
+      if r != text || again != text {
+        fail(ctx, "rope_first_vs_source", format!("on a fresh object rope() renders {r:?}, then source() is {again:?}; source() asked first gives {text:?}"));
+      }
+    }
+    Err(e) => report_panic(ctx, t, "rope() first", &e),
+  }
   match observe::guarded(|| src.size()) {
     Ok(n) => {
       if n != buffer.len() {
